@@ -1302,7 +1302,7 @@ def check_noisy(ck, scratch, n):
 # bounded noise: the deterministic form of the noise clauses (Props/C05.v, C05_bounded_noise_*), corrections off.
 # Every file is profile + its own constant, up to eps (uniform on the 1/1024 grid) in every bin; X / Y at their
 # ideal levels up to eps.  Then, with R = max(2 eps, |flat - ideal|) per bin (2 eps when the profile is centred at
-# the flat level there):  |reference log2 - ideal| <= R  and  spread^2 <= 997 R^2  (= 3988 eps^2 for R = 2 eps).
+# the flat level there):  |reference log2 - ideal| <= R  and  spread^2 <= 62 R^2  (= 248 eps^2 for R = 2 eps).
 
 NOISE_EPS = [Fr(1, 64), Fr(1, 16), Fr(1, 8)]
 
@@ -1496,22 +1496,23 @@ def run(ck, scratch):
                'pooled references with a FASTA (sequences shorter than a bin included) and without one (gc column of the first file); single columns '
                'for the two estimators; bounded-noise cohorts (uniform noise in [-eps, eps] on the 1/1024 grid, eps in 1/64, 1/16, 1/8, '
                'flat / random profiles, given / inferred sexes) -> the exact bounds of the C05_bounded_noise theorems as direct oracle '
-               '(|ref - ideal| <= max(2 eps, |flat - ideal|), spread^2 <= 997 radius^2, constants read from the Coq spec); '
+               '(|ref - ideal| <= max(2 eps, |flat - ideal|), spread^2 <= 62 radius^2, constants read from the Coq spec); '
                'non-trivial = >= 2 samples and a table produced / a column with two distinct values')
     ck.unproved_remainder = [
         'noise clauses ("spread ~ 0", X/Y levels "~ -1 / 0 / -1"): PROVED for bounded noise with corrections off '
         '(C05_bounded_noise_*: every file within eps of profile + constant => every centred value within 2 eps, reference '
         'log2 within R = max(2 eps, |flat - ideal|) of the ideal level -- 2 eps where the centred profile sits on the '
-        'flat level, in particular X at -1 / 0 and Y at -1 -- and spread^2 <= 997 R^2 = 3988 eps^2; tolerance 0.15 = '
+        'flat level, in particular X at -1 / 0 and Y at -1 -- and spread^2 <= 62 R^2 = 248 eps^2; tolerance 0.15 = '
         '2 eps at eps = 0.075) and checked on the code by the bounded:* classes; what is still only SAMPLED: unbounded '
         '(Gaussian-like) noise and the corrections-on pipeline (classes noisy:*, tolerance 0.15 at a sex-chromosome '
         'share <= 10%), no theorem',
         'bounded noise: the log2 radius uses only the range property of the biweight location, so in a bin whose '
         'centred profile a is off the flat level the proved radius is max(2 eps, |a|), not 2 eps (that the location of '
         '>= 2 agreeing samples ignores a distant flat value is not proved under noise; exact without noise: C05_depth_only); '
-        'the spread constant 997 per squared radius is crude (denominator bounded below by counting the points within one '
-        'MAD of the centre; lower bound 400/361 proved by example; the largest ratio seen on the code is recorded in '
-        'coverage.bounded_noise_observed), so "spread <= 0.15" follows from the theorem only for eps <= 1/422; mixed-sex Y '
+        'the spread constant 62 per squared radius is not sharp (two regimes on the scale s: all u^2 <= 8/25, or the '
+        'numerator paired termwise with the denominator, whose lower bound counts the points within one MAD of the centre; '
+        'a lower bound 400/361 is proved by example; the largest ratio seen on the code is recorded in '
+        'coverage.bounded_noise_observed), so "spread <= 0.15" follows from the theorem only for eps <= 1/105; mixed-sex Y '
         'bins with a baseline off the autosomal centre have no level clause (C05_sex_levels_y_mixed_refuted)',
         'sqrt: spread is compared squared (sqrt is a Section oracle in the proofs)',
         'sample sexes, when inferred, are the code\'s own guess_xx results (oracle; C15)',
@@ -1531,7 +1532,7 @@ def run(ck, scratch):
     ck.explanation = ('Model/Reference.v is proved (Props/C05.v, no axioms) to have exactly the input bins, to '
                       'reject differing files, to give per bin the published biweight location / midvariance of flat :: '
                       'centred-and-shifted samples, to reproduce depth-only cohorts with spread 0, to put X/Y at the '
-                      'reference-sex levels for noise-free cohorts and within explicit bounds (2 eps / 3988 eps^2) for cohorts with '
+                      'reference-sex levels for noise-free cohorts and within explicit bounds (2 eps / 248 eps^2) for cohorts with '
                       'noise bounded by eps, the flat levels (outside the open PAR-Y finding, whose '
                       'refutation is proved) and gc/rmask as unambiguous-base fractions; the correspondence ties that model '
                       'to do_reference / do_reference_flat / calculate_gc_lo on generated cohorts, every code output is also '
